@@ -32,3 +32,6 @@ func (r *Rng) Chance(pct int) bool { return r.Intn(100) < pct }
 func (r *Rng) Pick(xs []string) string { return xs[r.Intn(len(xs))] }
 
 func Pick[T any](r *Rng, xs []T) T { return xs[r.Intn(len(xs))] }
+
+// Pick2 picks one of the ints.
+func (r *Rng) Pick2(xs []int) int { return xs[r.Intn(len(xs))] }
